@@ -155,8 +155,10 @@ fn carrier_specs(thorough: bool) -> Vec<UniSpec> {
   v.push(UniSpec {
     full: true,
     lang: l,
-    sources: vec!["123 + 4;x = 123 + z * 2;".into(), "foo(123 + 1, 5 + 123)".into()],
-    patterns: vec!["123+".into(), "$A +".into(), "123 + $B".into(), "foo(".into()],
+    // (third text: sums nested in the LEFT operand - an ancestor that satisfies `inside`'s sub-rule but holds the node in
+    // the wrong field is passed over without a trace, the next one binds the variables afresh)
+    sources: vec!["123 + 4;x = 123 + z * 2;".into(), "foo(123 + 1, 5 + 123)".into(), "1 + t + 2; 3 + (4 + t)".into()],
+    patterns: vec!["123+".into(), "$A +".into(), "123 + $B".into(), "foo(".into(), "$X + $Y".into()],
     kinds: vec!["binary_expression".into(), "number".into(), "expression_statement".into()],
     regex: vec![vec!["123".into()]],
     fields: vec!["left".into(), "right".into()],
